@@ -26,7 +26,9 @@ EXT_DEREF = {"strlen": {0}, "strcmp": {0, 1}, "strncmp": {0, 1}, "strcpy": {0, 1
              "mkstemp": {0}}
 # consumers: (callee srcname) -> (arg index, mode) ; mode 'always' | 'on_true' | 'on_zero'
 CONSUMERS = {"cJSON_AddItemToObject": (2, "on_true"), "cJSON_AddItemToArray": (1, "always_nonnull"), "cJSON_ReplaceItemInObject": (2, "always"),
-             "cJSON_AddItemToObjectCS": (2, "on_true")}
+             "cJSON_AddItemToObjectCS": (2, "on_true"),
+             # links the replacement in place of the item and deletes the item; refuses only a NULL argument
+             "cJSON_ReplaceItemViaPointer": (2, "always_nonnull")}
 
 
 class Finding:
